@@ -159,15 +159,29 @@ async def _battery_run(case: dict[str, Any], vec: list[str], out: dict[str, Any]
     mgr = BatteryManager(status_ch.new_sender(), res_ch.new_sender(), timedelta(seconds=case.get("timeout", TIMEOUT)))
     await mgr.start()
 
+    derate = case.get("derate")
+
     async def feed_all() -> None:
         now = datetime.now(timezone.utc)
+        # (with a derating step to come, the inverters' messages are stamped a little before the batteries')
+        inv_now = now - timedelta(seconds=0.3) if derate else now
         for g, grp in enumerate(case["groups"]):
             for j, b in enumerate(grp["bats"]):
                 if case.get("unusable") == g:
                     b = dict(b, soc=float("nan"))
                 await api.feed(batdata.bat_id(g, j), batdata.mk_battery(batdata.bat_id(g, j), b, now))
             for j, i in enumerate(grp["invs"]):
-                await api.feed(batdata.inv_id(g, j), batdata.mk_inverter(batdata.inv_id(g, j), i, now))
+                await api.feed(batdata.inv_id(g, j), batdata.mk_inverter(batdata.inv_id(g, j), i, inv_now))
+
+    first_feed = datetime.now(timezone.utc)
+
+    async def feed_derated() -> None:
+        # one inverter reports narrower bounds, in a message that is newer than its last one but stamped before the
+        # newest battery message (other device, other clock); nothing else is sent
+        g, j = derate["g"], derate["j"]
+        i = dict(case["groups"][g]["invs"][j])
+        i["il"], i["iu"] = i["il"] * derate["factor"], i["iu"] * derate["factor"]
+        await api.feed(batdata.inv_id(g, j), batdata.mk_inverter(batdata.inv_id(g, j), i, first_feed - timedelta(seconds=0.1)))
         if case.get("bystander"):
             await api.feed(BY_BAT, batdata.mk_battery(BY_BAT, {"soc": 50.0, "lo": 10.0, "hi": 90.0, "cap": 5000.0, "il": -9000.0,
                                                              "el": 0.0, "eu": 0.0, "iu": 9000.0}, now))
@@ -229,7 +243,7 @@ async def _battery_run(case: dict[str, Any], vec: list[str], out: dict[str, Any]
                               "inv_bats": {**{i: sorted(bats) for bats, invs in groups for i in invs}, BY_INV: [BY_BAT]}})
         if k + 1 < n_req:
             await asyncio.sleep(0.2)
-            await feed_all()
+            await (feed_derated() if derate else feed_all())
             await asyncio.sleep(0.2)
             for iid in inv_ids:
                 api.outcome[iid] = "ok"
